@@ -10,7 +10,7 @@ RULE = ("n in 1..12 with every x (quick) plus generated n up to 60 (200 thorough
 LEVEL = ("theorems binomSf_mono_p / binomSf_strictMono_p, cp_lower_mono_x, cp_*_nested, cp_lower_le_upper, cp_coverage_lower / cp_coverage_upper (coverage for every true p from certified "
          "limits), binomCICert_sound; the certificate checker is the model's executable definition and is run on "
          "every interval the implementation returns")
-ASSUMPTIONS = ["root finding is not modelled: each returned limit is certified exactly with slack delta = max(1e-9, 4*xtol)",
+ASSUMPTIONS = ["root finding is not modelled: each returned limit is certified exactly with slack delta = max(1e-9, 4*xtol + 4*rtol)",
                "monotonicity in x, nesting in cl and lower <= upper follow for any certified limits from CPMono.cp_lower_mono_x / "
                "cp_upper_mono_x / cp_lower_nested / cp_upper_nested / cp_lower_le_upper (strict monotonicity of the tails in p); "
                "lower <= x/n <= upper (cl >= 1/2) is checked on the implementation, not proved"]
@@ -70,7 +70,8 @@ def run(ctx):
         n = ctx.rng.randint(10, ctx.n(60, 200)); x = ctx.rng.choice([0, n, 1, n - 1, ctx.rng.randint(0, n), ctx.rng.randint(0, n)])
         cl = ctx.rng.choice(CLS + [0.6, 0.999]); alt = ctx.rng.choice(ALTS)
         p0 = ctx.rng.choice([None, None, 0.0, 1.0, 0.5, ctx.rng.random()])
-        kw = ctx.rng.choice([{}, {}, {"xtol": 1e-10}, {"rtol": 1e-12}, {"maxiter": 200}, {"xtol": 1e-11, "rtol": 1e-13, "maxiter": 300}])
+        kw = ctx.rng.choice([{}, {}, {"xtol": 1e-10}, {"rtol": 1e-12}, {"maxiter": 200}, {"xtol": 1e-11, "rtol": 1e-13, "maxiter": 300},
+                             {"xtol": 1e-2}, {"xtol": 2e-2, "rtol": 1e-3}, {"rtol": 1e-3}])     # loose tolerances too: legal, and must not stick
         cases.append((n, x, cl, alt, p0, kw))
     # large n with counts at and next to the ends; the arguments as fresh Python ints (distinct objects even when equal:
     # CPython shares small ints only up to 256), NumPy integer scalars, or counts computed from data
@@ -100,7 +101,7 @@ def run(ctx):
         if r[0] != "ok":
             det.update({"issue": "call failed", "returned": r[1:]}); ctx.violation("oracle", det, site="binom_conf_interval"); continue
         lo, hi = float(r[1][0]), float(r[1][1])
-        d = max(delta, 4 * F(kw.get("xtol", 0)))
+        d = max(delta, 4 * F(kw.get("xtol", 0)) + 4 * F(kw.get("rtol", 0)))
         why = None
         if not (0.0 <= lo <= hi <= 1.0):
             why = "0 <= lower <= upper <= 1 fails"
@@ -114,8 +115,14 @@ def run(ctx):
             results.setdefault((n, cl, alt), {})[x] = (lo, hi)
         if p0 is not None or kw:   # independence of the starting point / solver keywords
             r0 = guarded(utils.binom_conf_interval, n, x, cl, alt)
-            if r0[0] != "ok" or abs(r0[1][0] - lo) > 1e-7 or abs(r0[1][1] - hi) > 1e-7:
+            tol_ = 1e-7 + 4 * kw.get("xtol", 0) + 4 * kw.get("rtol", 0)
+            if r0[0] != "ok" or abs(r0[1][0] - lo) > tol_ or abs(r0[1][1] - hi) > tol_:
                 det.update({"issue": "result depends on the starting point p or on solver keywords", "returned": [lo, hi], "default_call": r0[1:]})
+                ctx.violation("oracle", det, site="binom_conf_interval"); continue
+            why0 = certify(n, x, cl, alt, float(r0[1][0]), float(r0[1][1]), delta)
+            if why0:
+                det.update({"issue": "a plain call made right after a call with solver keywords is no longer tight: " + why0 + " (keywords of an earlier call stick?)",
+                            "returned": [float(r0[1][0]), float(r0[1][1])]})
                 ctx.violation("oracle", det, site="binom_conf_interval"); continue
         ops.append(f"cpcert|{alt}|{n}|{x}|{rat(cl)}|{rat(lo)}|{rat(hi)}|{rat(d)}"); meta.append(det)
     # monotone in x, nested in cl, exact coverage (small n, all x available)
